@@ -259,7 +259,7 @@ class PairingMonitor:
                 for key in keys:
                     if 931 <= int(key) <= 935:
                         continue
-                    expected = E.text_predicate(key, text) if world.fc_mode == "text" else world.fc[key]
+                    expected = E.text_predicate(key, text) if world.fc_mode.startswith("text") else world.fc[key]
                     got = result.get(key)
                     if got is None or got.format_constraint_fulfilled is not expected:
                         mon.on_violation("pairing-format-constraints", f"evaluate_format_constraints({keys}): key {key} is paired with {got!r}, the evaluator produced fulfilled={expected} for it (world {world.id}, text {text!r})", {"keys": keys})
